@@ -18,6 +18,7 @@ CONSTANTS
  MaxExtra <- MC_MaxExtra
  RandChoices <- MC_RandChoices
  Msg <- MC_Msg
+ SweepSigners <- MC_SweepSigners
  EMIT <- MC_EMIT
 INIT Init
 NEXT Next
